@@ -654,3 +654,14 @@ seeded('C14', 'Beta draw as a ratio that can exceed 1', 'R14.5',
        [('distributions', "        return y1 / (y1 + y2)", "        return (y1 + y2) / (y1 + 1.0)")], key='DistBeta')
 benign('C14', 'Beta draw with the sum named',
        [('distributions', "        return y1 / (y1 + y2)", "        total = y1 + y2\n        return y1 / total")])
+
+# ===================================================================================================== round 6 additions
+seeded('C12', 'falsy seed treated as "no seed given"', 'R12.8',
+       [('streams', "        if seed is None:\n            seed: int = round(", "        if not seed:\n            seed: int = round(")], key='seed-replaced')
+benign('C12', 'seed fallback written with the parameter copied into a local first',
+       [('streams', "        if seed is None:\n            seed: int = round(", "        given = seed\n        if given is None:\n            seed: int = round(")])
+seeded('C09', 'confidence interval undefined for zero variance', 'R9.5',
+       [('statistics', "        if math.isnan(mean) or math.isnan(self.stdev(False)):", "        if math.isnan(mean) or not self.stdev(False) > 0:")], key='confidence_interval')
+seeded('C01', 'backing list created in the class body', 'R1.7',
+       [('eventlist', "        self._event_list: list[SimEventInterface] = []\n        heapq.heapify(self._event_list)\n", "        self._event_list.clear()\n"),
+        ('eventlist', "class EventListHeap(EventListInterface):\n", "class EventListHeap(EventListInterface):\n    _event_list: list = []\n")], key='shared')
